@@ -59,6 +59,7 @@ pub enum Event {
     SubCreated { sub: usize, obs: usize, by: usize, ok: bool },
     Unsub { sub: usize, by: usize, result: Result<(), ObsErr> },
     DisallowBy { obs: usize, by: usize },
+    VarDropped { who: Who, var: VarId },
 }
 
 /// counts live instances of everything the harness places inside the graph
@@ -249,6 +250,17 @@ impl ObsH {
             ObsH::I(o) => o.try_get_value().map(Val::I).map_err(ObsErr::from),
             ObsH::P(o) => o.try_get_value().map(|(a, b)| Val::P(a, b)).map_err(ObsErr::from),
         }
+    }
+    /// `Observer::value()`: Some(v) if it returned, None if it panicked
+    pub fn value_or_panic(&self) -> Option<Val> {
+        let r = std::panic::catch_unwind(std::panic::AssertUnwindSafe(|| match self {
+            ObsH::I(o) => Val::I(o.value()),
+            ObsH::P(o) => {
+                let (a, b) = o.value();
+                Val::P(a, b)
+            }
+        }));
+        r.ok()
     }
     pub fn unsubscribe(&self, t: SubscriptionToken) -> Result<(), ObsErr> {
         match self {
